@@ -420,6 +420,50 @@ fn c14_no_panic_total(ctx: &mut Ctx) {
             if in_c01_operand_domain(x) && (which < 3 || in_c01_operand_domain(y)) {
                 check!(ctx, normalised_or_nonfinite(r), "{name}({}) = {} is neither normalised nor non-finite", x.show(), r.show());
             }
+            // the clauses of C14 that are stated without a range hold for every valid x (and y)
+            let v = x.big();
+            match which {
+                0 => {
+                    if v <= Big::from_i64(-750) {
+                        check!(ctx, both_zero(r), "exp({}) = {} should be exactly 0 for x <= -750", x.show(), r.show());
+                    } else if v >= Big::from_i64(710) {
+                        check!(ctx, !r.hi.is_finite(), "exp({}) = {} should have a non-finite high word for x >= 710", x.show(), r.show());
+                    } else if v.is_zero() {
+                        check!(ctx, r.hi == 1.0 && r.lo == 0.0, "exp(0) = {}", r.show());
+                    }
+                }
+                1 => {
+                    if v <= Big::from_i64(-1080) {
+                        check!(ctx, both_zero(r), "exp2({}) = {} should be exactly 0 for x <= -1080", x.show(), r.show());
+                    } else if v >= Big::from_i64(1024) {
+                        check!(ctx, !r.hi.is_finite(), "exp2({}) = {} should have a non-finite high word for x >= 1024", x.show(), r.show());
+                    }
+                }
+                2 => {
+                    if v.is_zero() {
+                        check!(ctx, both_zero(r), "exp_m1(0) = {}", r.show());
+                    }
+                }
+                _ => {
+                    let xv = if which == 3 { v } else { v.neg() };
+                    let yv = y.big();
+                    let xs = if which == 3 { x } else { x.neg() };
+                    if xv.is_zero() && yv.is_zero() {
+                        check!(ctx, !r.valid(), "powf(0, 0) = {} should be invalid", r.show());
+                    } else if xv.is_zero() {
+                        if yv.sign() > 0 {
+                            check!(ctx, both_zero(r), "powf(0, {}) = {} should be 0", y.show(), r.show());
+                        }
+                    } else if yv.is_zero() {
+                        check!(ctx, r.hi == 1.0 && r.lo == 0.0, "powf({}, 0) = {} should be 1", xs.show(), r.show());
+                    } else if xv.sign() < 0 && !yv.is_integer() {
+                        check!(ctx, !r.valid(), "powf of negative {} with non-integer {} = {} should be invalid", xs.show(), y.show(), r.show());
+                    } else if xv.sign() < 0 && r.valid() && r.hi != 0.0 {
+                        let want_neg = yv.is_odd_integer();
+                        check!(ctx, (r.hi < 0.0) == want_neg, "powf({}, {}) = {} has the wrong sign for the parity of y", xs.show(), y.show(), r.show());
+                    }
+                }
+            }
         }
     }
     ctx.set_nontrivial(x.hi.abs() > 700.0 || x.hi.abs() < 1e-290 || which >= 3);
